@@ -234,7 +234,52 @@ def prop(case, res):
         res.sample({'relation': name, 'x': x, 'kw': kw, 'converted': t0})
 
 
-SUBS = {'c08': prop}
+def _fill(layout, parts):
+    out, it = [], dict((k, iter(v)) for k, v in parts.items())
+    for ch in layout:
+        out.append(next(it[ch]) if ch in it else ch)
+    return ''.join(out)
+
+
+def prop_stnr(case, res):
+    """de.stnr against the frozen layout table: a number built for a federal state converts to the national layout and back."""
+    from vf.refs.tables import DE_STNR
+    m = M('de.stnr')
+    region = case['region']
+    reg_l, nat_l = DE_STNR[region]
+    parts = {'F': case['f'][:reg_l.count('F')], 'B': case['b'][:reg_l.count('B')], 'U': case['u'][:reg_l.count('U')], 'P': case['p']}
+    regional, national = _fill(reg_l, parts), _fill(nat_l, parts)
+    res.evals += 1
+    res.nt('de.stnr', region, regional)
+    res.hist['cases:de.stnr.layout'] += 1
+    pres = regional if not case.get('sep') else regional[:2] + case['sep'] + regional[2:5] + case['sep'] + regional[5:]
+    checks = [('validate(regional, region)', core.out(m.validate, pres, region), ('ok', regional)),
+              ('validate(national, region)', core.out(m.validate, national, region), ('ok', national)),
+              ('to_country_number(regional, region)', core.out(m.to_country_number, pres, region), ('ok', national)),
+              ('to_regional_number(national)', core.out(m.to_regional_number, national), ('ok', regional)),
+              ('region in guess_regions(regional)', core.out(lambda: region in m.guess_regions(pres)), ('ok', True)),
+              ('guess_regions(national)', core.out(m.guess_regions, national), ('ok', [region]))]
+    for what, got, want in checks:
+        if got != want:
+            res.violation('de.stnr|layout-table|%s|%s' % (what, region), 'c08-stnr', case,
+                          {'regional': regional, 'national': national, 'got': [str(x) for x in got], 'want': [str(x) for x in want]})
+    if res.hist['cases:de.stnr.layout'] % 40 == 1:
+        res.sample({'rel': 'de.stnr layout table', 'region': region, 'regional': regional, 'national': national})
+
+
+def shard_stnr(a):
+    from vf.refs.tables import DE_STNR
+    res = core.Result()
+    dig = lambda n: st.text(alphabet='0123456789', min_size=n, max_size=n)  # noqa: E731
+    strat = st.fixed_dictionaries({'region': st.sampled_from(sorted(DE_STNR)), 'f': dig(3), 'b': dig(4), 'u': dig(4), 'p': dig(1),
+                                   'sep': st.sampled_from(['', '', '/', ' ', '-', '.'])})
+    for region in sorted(DE_STNR):
+        prop_stnr({'region': region, 'f': '123', 'b': '4567', 'u': '8901', 'p': '2', 'sep': ''}, res)
+    core.drive(prop_stnr, strat, a['n'], (a['seed'], 'C08', 'stnr'), res, shrink_skip=a['known'])
+    return res
+
+
+SUBS = {'c08': prop, 'c08-stnr': prop_stnr}
 
 
 def presentations(src, valid):
@@ -285,7 +330,8 @@ def shard(a):
     if r['kw'] is not None:
         from hypothesis import find
         kws = [find(r['kw'], lambda k: True)]
-    for w in gen.class_sweep(src, nbase=1) + gen.symbol_sweep(src, nbase=1):
+    # numeric re-encodings (base 32, hexadecimal): values on the powers of the radix
+    for w in gen.class_sweep(src, nbase=1) + gen.symbol_sweep(src, nbase=1) + gen.power_boundary_pool(src):
         for kw in kws:
             prop({'rel': name, 'x': w, 'kw': kw}, res)
     return res
@@ -296,6 +342,7 @@ def run(ctx):
     discover()
     args = [{'shard': n, 'rel': n, 'n': ctx.q(300, 8000), 'seed': ctx.seed, 'known': ctx.known_buckets} for n in REL]
     res = core.run_shards(shard, args)
+    res.merge(core.run_shards(shard_stnr, [{'shard': 'de.stnr-layout', 'n': ctx.q(400, 8000), 'seed': ctx.seed, 'known': ctx.known_buckets}]))
     res.notes['relations'] = len(REL)
     res.notes['conversions_discovered_outside_the_table'] = sorted(n for n in REL if n.startswith('auto:'))
     res.notes['relations_with_few_cases'] = [n for n in REL if res.hist.get('cases:' + n, 0) < 50]
